@@ -336,8 +336,9 @@ func runCrash(tier string, seed uint64, out string) {
 	hist := map[string]int{}
 	tagHist := map[string]int{}
 	var failures []crashFailure
+	retried := map[int]bool{}
 	const batch = 250
-	for lo := 0; lo < len(cases); lo += batch {
+	for lo := 0; lo < len(cases) && len(failures) < 3; lo += batch {
 		hi := lo + batch
 		if hi > len(cases) {
 			hi = len(cases)
@@ -346,7 +347,12 @@ func runCrash(tier string, seed uint64, out string) {
 		for len(pending) > 0 {
 			bf := filepath.Join(out, "batch.json")
 			writeJSON(bf, pending)
-			ctx, cancel := context.WithTimeout(context.Background(), 30*time.Second)
+			// generous under load; a case blamed for a timeout is re-run alone before it is reported
+			limit := 60 * time.Second
+			if len(pending) == 1 {
+				limit = 30 * time.Second
+			}
+			ctx, cancel := context.WithTimeout(context.Background(), limit)
 			cmd := exec.CommandContext(ctx, self, "aux", "crashchild", "-in", bf)
 			cmd.Env = append(os.Environ(), "GOTRACEBACK=single")
 			var stderr strings.Builder
@@ -384,6 +390,21 @@ func runCrash(tier string, seed uint64, out string) {
 						kind := "process-died"
 						if timedOut {
 							kind = "timeout"
+							// confirm: re-run the batch up to and including the blamed case (a hang may depend on
+							// the cases before it); if that finishes, the batch was merely slow on a loaded machine
+							if !retried[c.ID] {
+								retried[c.ID] = true
+								var prefix []crashCase
+								for _, pc := range pending {
+									prefix = append(prefix, pc)
+									if pc.ID == c.ID {
+										break
+									}
+								}
+								if prefixCompletes(self, out, prefix) {
+									continue
+								}
+							}
 						}
 						hist[kind]++
 						msg := stderr.String()
@@ -398,7 +419,7 @@ func runCrash(tier string, seed uint64, out string) {
 			}
 			_ = started
 			pending = rest
-			if len(failures) > 40 {
+			if len(failures) >= 3 {
 				pending = nil
 			}
 		}
@@ -414,6 +435,22 @@ func runCrash(tier string, seed uint64, out string) {
 		samples = append(samples, map[string]any{"sql": cases[i].SQL, "wrapped": cases[i].Wrapped, "pg": cases[i].PG, "idiom": cases[i].Idiom})
 	}
 	writeJSON(filepath.Join(out, "crash.json"), map[string]any{"cases": len(cases), "outcomes": hist, "streams": tagHist, "failures": failures, "samples": samples})
+}
+
+// prefixCompletes re-runs a batch prefix in a fresh child with a generous timeout.
+func prefixCompletes(self, out string, prefix []crashCase) bool {
+	bf := filepath.Join(out, "confirm.json")
+	writeJSON(bf, prefix)
+	defer os.Remove(bf)
+	ctx, cancel := context.WithTimeout(context.Background(), 45*time.Second)
+	defer cancel()
+	cmd := exec.CommandContext(ctx, self, "aux", "crashchild", "-in", bf)
+	stdout, _ := cmd.Output()
+	if ctx.Err() != nil {
+		return false
+	}
+	last := prefix[len(prefix)-1].ID
+	return strings.Contains(string(stdout), fmt.Sprintf("END %d ", last))
 }
 
 func caseByID(cs []crashCase, id int) crashCase {
